@@ -190,3 +190,47 @@ package engine
 //@   ensures forall a int :: ghost(pos, it.Iterator) < a && a < ghost(n, it.Iterator) ==> pkord(it.Iterator, a) > ord(key)
 //@   ensures ghost(pos, it.Iterator) >= 0 ==> pkord(it.Iterator, ghost(pos, it.Iterator)) <= ord(key)
 //@   modifies ghost(pos, it.Iterator)
+
+// ---- point reads: "exists" and "get" must agree, and a key stored with an EMPTY value exists ----
+// ghost(absent, rs) == 1 iff the reference slice denotes "no such key" (its data is nil, not merely empty)
+//@ interface (github.com/youzan/ZanRedisDB/engine.RefSlice).Data func(rs RefSlice) []byte
+//@   ensures (result == nil) <==> ghost(absent, rs) == 1
+//@ interface (github.com/youzan/ZanRedisDB/engine.RefSlice).Bytes func(rs RefSlice) []byte
+//@   ensures (result == nil) <==> ghost(absent, rs) == 1
+//@ noeffect (github.com/youzan/ZanRedisDB/engine.RefSlice).Free
+// the concrete reference slices implement exactly that: nil-ness of the data, never its length
+//@ func (rs *pebbleRefSlice) Data() []byte
+//@   requires rs != nil
+//@   ensures sameSlice(result, rs.b)
+//@ func (rs *pebbleRefSlice) Bytes() []byte
+//@   requires rs != nil
+//@   ensures (result == nil) <==> (rs.b == nil)
+//@   ensures result != nil ==> fresh(result) && bytesEq(result, rs.b)
+//@ func (rs *memRefSlice) Data() []byte
+//@   requires rs != nil
+//@   ensures sameSlice(result, rs.b)
+//@ func (rs *memRefSlice) Bytes() []byte
+//@   requires rs != nil
+//@   ensures (result == nil) <==> (rs.b == nil)
+//@   ensures result != nil ==> bytesEq(result, rs.b)
+// ghost(found, eng) : whether the key of the current lookup is in the store (what the underlying library reported)
+//@ func (pe *PebbleEng) GetRefNoLock(key []byte) (RefSlice, error)
+//@   trusted pebble.DB.Get: ErrNotFound -> data nil; a stored value, even an empty one, -> data non-nil
+//@   ensures result1 == nil ==> result0 != nil && (ghost(absent, result0) == 1 <==> ghost(found, pe) == 0)
+//@   ensures result1 != nil ==> result0 == nil
+//@ func (pe *PebbleEng) ExistNoLock(key []byte) (bool, error)
+//@   requires pe != nil
+//@   ensures result1 == nil ==> (result0 <==> ghost(found, pe) != 0)
+//@ func (pe *PebbleEng) GetBytesNoLock(key []byte) ([]byte, error)
+//@   requires pe != nil
+//@   ensures result1 == nil ==> ((result0 != nil) <==> ghost(found, pe) != 0)
+//@ func (me *memEng) GetRefNoLock(key []byte) (RefSlice, error)
+//@   trusted radix / skiplist / btree lookup: a missing key yields a nil slice or nil data
+//@   ensures result1 == nil && result0 != nil ==> (ghost(absent, result0) == 1 <==> ghost(found, me) == 0)
+//@   ensures result1 == nil && result0 == nil ==> ghost(found, me) == 0
+//@ func (me *memEng) ExistNoLock(key []byte) (bool, error)
+//@   requires me != nil
+//@   ensures result1 == nil ==> (result0 <==> ghost(found, me) != 0)
+//@ func (me *memEng) GetBytesNoLock(key []byte) ([]byte, error)
+//@   requires me != nil
+//@   ensures result1 == nil ==> ((result0 != nil) <==> ghost(found, me) != 0)
